@@ -413,10 +413,58 @@ def check_serde_tables(ctx, res, config="all"):
                 rv = s.get("rv")
                 if rv and rv["k"] == "binop" and rv["op"] == "Div" and op_const(rv["a"]) is not None and op_const(rv["a"]) <= (1 << 20):
                     ok = True
+        if not ok and not unknown_cap:
+            # the cap written as a comparison: every value returned is a constant within the budget, or the hint itself on the
+            # edge of `n < K` / `n <= K` with K within the budget
+            from . import r4 as _r4
+            from .tests import tests_of as _tests_of
+
+            cap_ = (1 << 20) // 4
+            tl_, at_ = _tests_of(b)
+            verdicts = []
+            for d in b.defs().get(0, []):
+                if d[1] not in b.live_blocks():
+                    continue
+                if d[0] != "assign" or d[3]["rv"]["k"] != "use":
+                    verdicts.append(None)
+                    continue
+                op_ = d[3]["rv"]["op"]
+                try:
+                    v_ = _r4.eval_int(b, op_, {})
+                    verdicts.append(isinstance(v_, int) and 0 <= v_ <= cap_)
+                    continue
+                except Exception:
+                    pass
+                a_ = at_.of_operand(op_)
+                if not (params_of(a_) == {1} and not consts_of(a_)):
+                    verdicts.append(None)
+                    continue
+                bounded = None
+                for t_ in tl_:
+                    c_ = t_.cond
+                    if c_ is None or c_.kind != "cmp" or c_.op not in ("Lt", "Le", "Gt", "Ge"):
+                        continue
+                    for (x_, k_raw, flip) in ((c_.a, c_.rb, False), (c_.b, c_.ra, True)):
+                        if params_of(x_) != {1} or consts_of(x_):
+                            continue
+                        try:
+                            k_ = _r4.eval_int(b, k_raw, {})
+                        except Exception:
+                            bounded = "unknown" if bounded is None else bounded
+                            continue
+                        o_ = c_.op if not flip else {"Lt": "Gt", "Le": "Ge", "Gt": "Lt", "Ge": "Le"}[c_.op]
+                        edge, top = {"Lt": (t_.t, k_ - 1), "Le": (t_.t, k_), "Gt": (t_.f, k_), "Ge": (t_.f, k_ - 1)}[o_]
+                        if edge is not None and b.edge_dominates((t_.bb, edge), d[1]):
+                            bounded = top <= cap_
+                verdicts.append(None if bounded in (None, "unknown") else bounded)
+            if verdicts and all(v is True for v in verdicts):
+                ok = True
+            elif verdicts and not any(v is False for v in verdicts):
+                unknown_cap = True
         if ok:
             res.ok("R7-serde-cautious", "cautious", {"cap_elements": (1 << 20) // 4})
         elif unknown_cap:
-            res.note("R7-serde-cautious: the size hint is capped by min(hint, <named constant>) whose value is not visible in MIR - the 1 MiB bound is not decided")
+            res.note("R7-serde-cautious: the size hint is capped by a constant whose value is not visible in MIR, or in a way the rule does not model - the 1 MiB bound is not decided")
             res.ok("R7-serde-cautious", "cautious", {"undecided": "named cap"}, nontrivial=False)
         else:
             res.fail(Finding("R7-serde-cautious", "cautious", "pre-allocation from an untrusted size hint is not capped at 1 MiB worth of u32 elements", b))
